@@ -298,6 +298,37 @@ def hist_value(flags_vf_si, h, o):
     return [list(flags_vf_si), [99, h["routing"]], steps, obs]
 
 
+def run_one(binary, cases, timeout):
+    """like vlib.run_harness, but a harness that does not finish is asked for its goroutine dump (SIGQUIT) before it is killed"""
+    import signal
+    import subprocess
+    inp = "".join(json.dumps(c, separators=(",", ":")) + "\n" for c in cases)
+    p = subprocess.Popen([binary], stdin=subprocess.PIPE, stdout=subprocess.PIPE, stderr=subprocess.PIPE, text=True)
+    try:
+        so, se = p.communicate(inp, timeout=timeout)
+    except subprocess.TimeoutExpired:
+        p.send_signal(signal.SIGQUIT)
+        try:
+            so, se = p.communicate(timeout=20)
+        except subprocess.TimeoutExpired:
+            p.kill()
+            so, se = p.communicate()
+        n = len(so.splitlines())
+        try:
+            with open(os.path.join(vlib.BUILD, "c04_hang_dump.txt"), "w") as fh:
+                fh.write("stuck on case %d: %s\n\n%s" % (n, json.dumps(cases[n]) if n < len(cases) else None, se))
+        except OSError:
+            pass
+        raise vlib.Broken("harness verif_c04 did not finish %d cases within %ds" % (len(cases), timeout),
+                          "stuck on case %d: %s\n%s" % (n, json.dumps(cases[n]) if n < len(cases) else None, se[-3000:]))
+    if p.returncode != 0:
+        raise vlib.Broken("harness verif_c04 exited %d" % p.returncode, (se or "")[-4000:])
+    outs = [json.loads(l) for l in so.splitlines() if l.strip()]
+    if len(outs) != len(cases):
+        raise vlib.Broken("harness verif_c04 returned %d results for %d cases" % (len(outs), len(cases)), (se or "")[-2000:])
+    return outs
+
+
 def run_sharded(binary, cases, shards):
     """several harness processes side by side (histories with parked requests wait on the real 50-200 ms routing poll)"""
     import threading
@@ -310,7 +341,7 @@ def run_sharded(binary, cases, shards):
 
     def work(i):
         try:
-            res[i] = vlib.run_harness(binary, parts[i], timeout=1500)
+            res[i] = run_one(binary, parts[i], int(os.environ.get("C04_SHARD_TIMEOUT", "600")))
         except vlib.Broken as b:
             errs.append(b)
     ths = [threading.Thread(target=work, args=(i,)) for i in range(shards)]
@@ -347,6 +378,22 @@ def shrink_hist(binary, h, cls):
             break
     return cur
 
+def build_private():
+    """build the harness into a per-process directory: another `./check C04` running at the same time against ANOTHER tree
+    (VERIF_REPO=<worktree with a candidate change>) would otherwise replace build/bin/verif_c04 under this run"""
+    import atexit
+    import shutil
+    old = vlib.BUILD
+    priv = os.path.join(old, "priv_c04_%d" % os.getpid())
+    vlib.BUILD = priv
+    try:
+        binary = vlib.build_harness("C04")
+    finally:
+        vlib.BUILD = old
+    atexit.register(shutil.rmtree, priv, True)
+    return binary
+
+
 def classify(c, o, flags):
     """map a failing cell to the known defect it manifests (only while the witness of that defect reproduces on this tree)"""
     cls = o.get("class", "")
@@ -361,7 +408,7 @@ def classify(c, o, flags):
 
 def run(ctx, only_cases=None):
     thorough = ctx.tier == "thorough"
-    binary = vlib.build_harness("C04")
+    binary = build_private()
     gen_changed = vlib.write_if_changed(os.path.join(vlib.COQ, "Gen", "C04.v"), vlib.harness_text(binary, ["gen"]))
     broken = None
     try:
